@@ -1,4 +1,5 @@
 import Ucan.Spec.PolicyIpld
+import Ucan.Lemmas.SelectorReparse
 /-!
 # C14 — policies and selectors are parsed losslessly or rejected
 -/
@@ -110,6 +111,143 @@ theorem C14_unterminated_rejected (isLetter : Nat → Bool) (s : Bytes) (h : (to
     simp only at h hp
     subst h
     simp at hp
+
+theorem flatten_singleton (toks : List Bytes) (a : Byte) (hne : ∀ t ∈ toks, t ≠ []) (h : toks.flatten = [a]) :
+    toks = [[a]] := by
+  rcases toks with _ | ⟨t, ts⟩
+  · simp at h
+  · have ht := hne t List.mem_cons_self
+    rcases t with _ | ⟨x, xs⟩
+    · exact absurd rfl ht
+    · simp only [List.flatten_cons, List.cons_append, List.cons.injEq] at h
+      obtain ⟨hx, hrest⟩ := h
+      have h1 : xs = [] := (List.append_eq_nil_iff.mp hrest).1
+      have h2 : ts.flatten = [] := (List.append_eq_nil_iff.mp hrest).2
+      rcases ts with _ | ⟨u, us⟩
+      · subst hx; subst h1; rfl
+      · have hu := hne u (List.mem_cons_of_mem _ List.mem_cons_self)
+        simp only [List.flatten_cons, List.append_eq_nil_iff] at h2
+        exact absurd h2.1 hu
+
+/-- C14 (selectors, print and re-parse): the text printed for an accepted selector is accepted again and
+    parses to the very same selector — same segments, same stored text — so printing loses nothing that
+    parsing understood (identity segments written `.?` are printed `.`, which is what they mean) -/
+theorem C14_print_reparse (isLetter : Nat → Bool) (s : Bytes) (sel : List Seg) (h : parse isLetter s = .ok sel) :
+    parse isLetter (print sel) = .ok sel := by
+  unfold parse at h
+  split at h; · cases h
+  rename_i hs0
+  split at h; · cases h
+  rename_i hhead
+  split at h
+  · cases h; rfl
+  split at h
+  · cases h; rfl
+  simp only at h
+  split at h; · cases h
+  rename_i hopen
+  have hhead' : s.head? = some cDot := by
+    cases hh : s.head? with
+    | none => cases s <;> simp_all
+    | some c => by_cases hc : c = cDot
+                · rw [hc]
+                · exfalso; apply hhead; rw [hh]; simpa using hc
+  have hclosed : (tokenize s).2 = false := by simpa using hopen
+  have hok := tokenize_tokOK s hhead' hclosed
+  have hpart := C14_tokenize_partition s
+  have hprint := parseLoop_print isLetter _ _ _ h
+  simp only [print, List.map_nil, List.flatten_nil, List.nil_append] at hprint
+  have hprint' : print sel = ((tokenize s).1.map normTok).flatten := hprint
+  -- name the tokens
+  generalize htk : (tokenize s).1 = toks at *
+  have hok' : ∀ t ∈ toks.map normTok, tokOK t = true := by
+    intro t ht
+    obtain ⟨u, hu, rfl⟩ := List.mem_map.mp ht
+    exact tokOK_normTok u (hok u hu)
+  have hne' : ∀ t ∈ toks.map normTok, t ≠ [] := fun t ht => tokOK_ne_nil t (hok' t ht)
+  rw [hprint']
+  -- the first token starts with '.'
+  rcases toks with _ | ⟨t, ts⟩
+  · simp at hpart; exact absurd hpart.symm (by simpa using hs0)
+  have ht_ok := hok t List.mem_cons_self
+  have hthead : t.head? = some cDot := by
+    rcases t with _ | ⟨c, r⟩
+    · simp [tokOK] at ht_ok
+    · simp only [List.flatten_cons, List.cons_append] at hpart
+      rw [← hpart] at hhead'
+      simpa using hhead'
+  have hnhead : (normTok t).head? = some cDot := by
+    unfold normTok
+    by_cases hd : (if t.getLast? = some cQM then trimQM t else t) = [cDot]
+    · rw [if_pos hd]; rfl
+    · rw [if_neg hd]; exact hthead
+  unfold parse
+  have g1 : ((t :: ts).map normTok).flatten ≠ [] := by
+    simp only [List.map_cons, List.flatten_cons]
+    intro hnil
+    exact hne' (normTok t) (by simp) (List.append_eq_nil_iff.mp hnil).1
+  have g2 : ¬ (((t :: ts).map normTok).flatten.head? ≠ some cDot) := by
+    simp only [List.map_cons, List.flatten_cons, ne_eq, Classical.not_not]
+    rcases hn : normTok t with _ | ⟨c, r⟩
+    · rw [hn] at hnhead; simp at hnhead
+    · rw [hn] at hnhead; simpa using hnhead
+  rw [if_neg g1, if_neg g2]
+  by_cases g3 : ((t :: ts).map normTok).flatten = [cDot]
+  · rw [if_pos g3]
+    have hsing := flatten_singleton _ cDot hne' g3
+    simp only [List.map_cons, List.cons.injEq, List.map_eq_nil_iff] at hsing
+    obtain ⟨hnt, hts⟩ := hsing
+    subst hts
+    unfold parseLoop at h
+    rw [← parseToken_normTok, hnt] at h
+    have hp : parseToken isLetter false [cDot] = .ok { str := [cDot], identity := true } := by
+      unfold parseToken
+      have h0 : (([cDot] : Bytes).getLast? = some cQM) = False := by decide
+      simp only [h0, if_false, if_true]
+      rfl
+    simp only [List.getLast?_nil] at h
+    rw [hp] at h
+    simp only [parseLoop, List.nil_append] at h
+    exact h
+  · rw [if_neg g3]
+    by_cases g4 : ((t :: ts).map normTok).flatten = [cDot, cQM]
+    · exfalso
+      -- the first token is "." or ".?": both impossible
+      simp only [List.map_cons, List.flatten_cons] at g4
+      rcases hn : normTok t with _ | ⟨c, r⟩
+      · exact hne' (normTok t) (by simp) hn
+      · rw [hn] at g4
+        simp only [List.cons_append, List.cons.injEq] at g4
+        obtain ⟨hc, hrest⟩ := g4
+        rcases r with _ | ⟨c2, r2⟩
+        · -- normTok t = ".", the rest flattens to "?": its first token would start with '?'
+          simp only [List.nil_append] at hrest
+          have hne2 : ∀ u ∈ ts.map normTok, u ≠ [] := fun u hu => hne' u (by simp at hu ⊢; exact Or.inr hu)
+          have := flatten_singleton _ cQM hne2 hrest
+          have hq : tokOK [cQM] = true := hok' [cQM] (by simp [this])
+          revert hq; decide
+        · simp only [List.cons_append, List.cons.injEq] at hrest
+          obtain ⟨hc2, hr2⟩ := hrest
+          have hr2' : r2 = [] := (List.append_eq_nil_iff.mp hr2).1
+          subst hc; subst hc2; subst hr2'
+          -- normTok t = ".?" is impossible: such a token is stored as "."
+          unfold normTok at hn
+          by_cases hd : (if t.getLast? = some cQM then trimQM t else t) = [cDot]
+          · rw [if_pos hd] at hn; cases hn
+          · rw [if_neg hd] at hn
+            subst hn
+            exact hd (by decide)
+    · rw [if_neg g4]
+      have htok := tokenize_flatten _ hok'
+      rw [htok]
+      simp only [Bool.false_eq_true, if_false]
+      rw [parseLoop_normTok]
+      exact h
+
+-- non-vacuity: `.[0].?` is accepted (an index segment, then an identity segment written `.?`) and is
+-- printed `.[0].`, which by the theorem parses to the same two segments
+example : (match parse (fun _ => false) [46, 91, 48, 93, 46, 63] with | .ok sel => print sel | .error _ => []) =
+    [46, 91, 48, 93, 46] := by rfl
 
 end Ucan.Selector
 
